@@ -245,7 +245,9 @@ impl Env {
             .filter(|(_, a)| s.has_role(a, &tld).unwrap_or(false))
             .map(|(i, _)| i as i64 + 1)
             .collect();
-        json!({"buf": bufs, "delay": cfg.delay(), "now": w.clock().0, "holds": holds})
+        // delays beyond TLC's integers are logged as decimal strings (judged through `cmp`, see event)
+        let delay = if cfg.delay() > i32::MAX as u32 { json!(cfg.delay().to_string()) } else { json!(cfg.delay()) };
+        json!({"buf": bufs, "delay": delay, "now": w.clock().0, "holds": holds})
     }
 
     /// execute one abstract operation through the real instruction(s)
@@ -421,6 +423,15 @@ impl Env {
             _ => {}
         }
         let post = self.project(w, ghost);
+        if op == "increase_delay" && pre["delay"].is_string() {
+            // increase_delay on a delay above 2^31 - 1: cmp = sign(post - pre), fits = no u32 overflow, exact = post = pre + delta
+            let num = |v: &Value| v["delay"].as_str().map(|t| t.parse::<u64>().unwrap()).or(v["delay"].as_u64()).unwrap();
+            let (d0, d1) = (num(&pre), num(&post));
+            sink.emit(json!({"op": "increase_delay_big", "b": 0, "x": 0, "xs": x.to_string(), "ok": r.ok, "panic": r.panic, "err": r.label(),
+                "reset": reset, "via": "single", "pre": pre, "post": post, "buffered": buffered, "delivered": delivered, "wallet": "wallet",
+                "cmp": (d1 as i64 - d0 as i64).signum(), "fits": x != 0 && d0 + x as u64 <= u32::MAX as u64, "exact": d0 + x as u64 == d1}));
+            return r.ok;
+        }
         sink.emit(json!({"op": op, "b": b, "x": x, "ok": r.ok, "panic": r.panic, "err": r.label(), "reset": reset,
             "via": if batch { "batch" } else { "single" }, "pre": pre, "post": post,
             "buffered": buffered, "delivered": delivered, "wallet": "wallet"}));
@@ -434,7 +445,8 @@ fn run(args: &Args) {
     let len = args.num("len", 40) as usize;
     let mut sink = Sink::create(&args.str("out", "trace.ndjson"));
     let mut worlds = Vec::new();
-    for delay in [1u32, 2] {
+    // short delays and delays above 30 days (30 days + 1 s, 90 days)
+    for delay in [1u32, 2, 30 * 86_400 + 1, 90 * 86_400] {
         let mut w = World::new();
         let env = Env::new(&mut w, delay);
         worlds.push((w, env));
@@ -458,6 +470,9 @@ fn run(args: &Args) {
              ("create", 1, 21), ("create", 2, 22), ("approve", 1, 2), ("approve", 2, 2), ("tick", 0, 3), ("execute", 1, 0), ("execute", 2, 0),
              ("create", 1, 31), ("create", 2, 32), ("approve", 1, 1), ("approve", 2, 2), ("tick", 0, 3), ("execute", 1, 0), ("execute", 2, 0),
              ("create", 1, 13), ("create", 1, 23), ("create", 2, 33)],
+        // long waits and a day-sized increase while an approval is pending (executes in the 90-day world only at the end)
+        vec![("create", 1, 11), ("approve", 1, 1), ("increase_delay", 0, 86_400), ("tick", 0, 90 * 86_400), ("execute", 1, 0), ("increase_delay", 0, 1),
+             ("tick", 0, 86_400), ("execute", 1, 0), ("tick", 0, 1), ("execute", 1, 0), ("increase_delay", 0, 0), ("increase_delay", 0, 30 * 86_400)],
         // exactly at the boundary: now = approved_at + delay - 1, then = approved_at + delay
         vec![("create", 1, 1), ("create", 2, 2), ("approve", 1, 1), ("approve", 2, 2), ("execute", 1, 0), ("tick", 0, 1), ("execute", 1, 0),
              ("execute", 2, 0), ("tick", 0, 1), ("execute", 1, 0), ("execute", 2, 0)],
@@ -474,6 +489,16 @@ fn run(args: &Args) {
             }
         }
     }
+    // delays up to u32::MAX: only increase_delay (increments 0, 1, one day, overflowing ones: must fail and change nothing)
+    for delay in [u32::MAX, u32::MAX - 10, u32::MAX - 86_400, 3_000_000_000] {
+        let mut w = World::new();
+        let env = Env::new(&mut w, delay);
+        let mut ghost = fresh();
+        histories += 1;
+        for (i, d) in [0i64, 1, 86_400, 1, 4_000_000_000, u32::MAX as i64, 10, 86_400].iter().enumerate() {
+            env.event(&mut w, &mut ghost, "increase_delay", 0, *d, false, i == 0, &mut sink);
+        }
+    }
     while sink.n < n {
         let (w0, env) = &worlds[rng.below(worlds.len() as u64) as usize];
         let (mut w, mut ghost) = (w0.clone(), fresh());
@@ -486,7 +511,7 @@ fn run(args: &Args) {
                 4..=7 => ("approve", b, a),
                 8..=12 => ("execute", b, 0),
                 13 => ("cancel", b, 0),
-                14 => ("increase_delay", 0, *rng.pick(&[0i64, 1, 1, 2])),
+                14 => ("increase_delay", 0, *rng.pick(&[0i64, 1, 1, 2, 86_400])),
                 15 => ("revoke", 0, a),
                 16 => ("grant", 0, a),
                 _ => ("tick", 0, *rng.pick(&[1i64, 1, 2, 3])),
